@@ -43,13 +43,42 @@ func (e *Exec) errMethod(eo *ErrObj, name string, args []Value) Value {
 	return nil
 }
 
+// errRoot finds the modelled error object behind an error value (registered sentinel errors are
+// pointers to such objects).
+func errRoot(v Value) *ErrObj {
+	iv, ok := v.(*IfaceV)
+	if !ok || iv.t == nil {
+		return nil
+	}
+	switch x := iv.v.(type) {
+	case *ErrObj:
+		return x
+	case *PtrV:
+		if x.c != nil {
+			if eo, ok := x.c.v.(*ErrObj); ok {
+				return eo
+			}
+		}
+	}
+	return nil
+}
+
+func errChainHas(e, target *ErrObj) bool {
+	for x := e; x != nil; x = x.wrap {
+		if x == target {
+			return true
+		}
+	}
+	return false
+}
+
 func (e *Exec) wrapErr(v Value, how string) Value {
 	iv := v.(*IfaceV)
 	if iv.t == nil {
 		return e.nilErr()
 	}
-	eo, ok := iv.v.(*ErrObj)
-	if !ok {
+	eo := errRoot(v)
+	if eo == nil {
 		return e.newErr(how)
 	}
 	return e.errIface(&ErrObj{name: eo.name, wrap: eo})
@@ -107,19 +136,31 @@ func (e *Exec) intrinsic(name string, fn *ssa.Function, args []Value) (Value, bo
 		return e.constBytes("<fmt>", true), true
 	case "fmt.Println", "fmt.Printf", "fmt.Print":
 		return TupleV{tb.BV(0, 64), e.nilErr()}, true
-	case "errors.Is":
-		a, b := args[0].(*IfaceV), args[1].(*IfaceV)
-		if a.t == nil || b.t == nil {
-			return tb.Bool(a.t == nil && b.t == nil), true
+	case "errors.Is", "cosmossdk.io/errors.IsOf", "(*cosmossdk.io/errors.Error).Is":
+		a := args[0].(*IfaceV)
+		var targets []Value
+		if gs, ok := args[1].(*GSliceV); ok {
+			for _, c := range gs.e {
+				targets = append(targets, c.v)
+			}
+		} else {
+			targets = append(targets, args[1])
 		}
-		ea, ok1 := a.v.(*ErrObj)
-		eb, ok2 := b.v.(*ErrObj)
-		if !ok1 || !ok2 {
-			// *errors.Error sentinel pointers
-			e.fail("errors.Is on %T/%T", a.v, b.v)
+		if a.t == nil {
+			for _, t := range targets {
+				if iv, ok := t.(*IfaceV); ok && iv.t == nil {
+					return tb.tt, true
+				}
+			}
+			return tb.ff, true
 		}
-		for x := ea; x != nil; x = x.wrap {
-			if x == eb {
+		ea := errRoot(a)
+		if ea == nil {
+			e.fail("%s on an unmodelled error value %T", name, a.v)
+		}
+		for _, t := range targets {
+			et := errRoot(t)
+			if et != nil && errChainHas(ea, et) {
 				return tb.tt, true
 			}
 		}
@@ -306,10 +347,29 @@ func (e *Exec) intrinsic(name string, fn *ssa.Function, args []Value) (Value, bo
 		}
 		return e.modelMethod(mo, strings.TrimPrefix(name, "(cosmossdk.io/store/prefix.Store)."), args[1:]), true
 	}
+	if strings.HasPrefix(name, "(*"+repoMod+"/x/cctp/types.") && strings.HasSuffix(name, ").Unmarshal") {
+		return e.generatedUnmarshal(args), true
+	}
 	if strings.HasPrefix(name, "(*sync.Map).") {
 		return e.syncMapMethod(strings.TrimPrefix(name, "(*sync.Map)."), args), true
 	}
 	switch name {
+	case "(*sync.Once).Do":
+		p, ok := args[0].(*PtrV)
+		if !ok || p.c == nil {
+			e.goPanicNow("nil *sync.Once")
+		}
+		if e.onceDone == nil {
+			e.onceDone = map[*Cell]bool{}
+		}
+		if !e.onceDone[p.c] {
+			e.onceDone[p.c] = true
+			if p.c.global {
+				e.noteGlobalWrite("sync.Once")
+			}
+			e.callValue(args[1], nil)
+		}
+		return nil, true
 	case "(*sync.Mutex).Lock", "(*sync.Mutex).Unlock", "(*sync.RWMutex).Lock", "(*sync.RWMutex).Unlock", "(*sync.RWMutex).RLock", "(*sync.RWMutex).RUnlock":
 		return nil, true
 	case "(*sync.Mutex).TryLock", "(*sync.RWMutex).TryLock":
@@ -944,4 +1004,75 @@ func (e *Exec) syncMapMethod(m string, args []Value) Value {
 	}
 	e.fail("sync.Map method %s not modelled", m)
 	return nil
+}
+
+// generatedUnmarshal models the gogoproto-generated (*T).Unmarshal(dAtA): unlike codec.Unmarshal it
+// does NOT reset the receiver, and proto3 omits zero-valued fields from the encoding, so a field that
+// is zero in the encoded value keeps whatever the receiver held before (repeated fields append).
+func (e *Exec) generatedUnmarshal(args []Value) Value {
+	tb := e.tb
+	p, ok := args[0].(*PtrV)
+	if !ok || p.c == nil {
+		e.goPanicNow("Unmarshal on nil message")
+	}
+	dst, ok := p.c.v.(*StructV)
+	if !ok {
+		e.fail("generated Unmarshal: receiver %T", p.c.v)
+	}
+	bz := e.asBytes(args[1], "Unmarshal")
+	if bz.blob == nil {
+		if e.branch(tb.Not(tb.Eq(bz.len, tb.BV(0, 64)))) {
+			e.fail("generated Unmarshal of raw (non-module-written) bytes")
+		}
+		return e.nilErr()
+	}
+	src, ok := bz.blob.(*StructV)
+	if !ok || !sameShape(dst, src) {
+		e.fail("generated Unmarshal: encoded value of a different message type")
+	}
+	e.mergeStruct(dst, src)
+	return e.nilErr()
+}
+
+func (e *Exec) mergeStruct(dst, src *StructV) {
+	tb := e.tb
+	for i := range dst.f {
+		switch s := src.f[i].v.(type) {
+		case *Term:
+			d := dst.f[i].v.(*Term)
+			dst.f[i].v = tb.Ite(e.isZeroVal(s), d, s)
+		case *SliceV:
+			d := dst.f[i].v.(*SliceV)
+			if e.branch(tb.Eq(s.len, tb.BV(0, 64))) {
+				dst.f[i].v = d
+			} else {
+				dst.f[i].v = e.snapshotBytes(s)
+				if s.isStr {
+					dst.f[i].v.(*SliceV).isStr = true
+				}
+			}
+		case *StructV:
+			if d, ok := dst.f[i].v.(*StructV); ok {
+				e.mergeStruct(d, s)
+			}
+		case *GSliceV:
+			d, _ := dst.f[i].v.(*GSliceV)
+			n := &GSliceV{}
+			if d != nil {
+				n.e = append(n.e, d.e...)
+			}
+			cl := newCloner(false)
+			for _, c := range s.e {
+				n.e = append(n.e, cl.cell(c))
+			}
+			dst.f[i].v = n
+		case *PtrV:
+			if s.c != nil {
+				cl := newCloner(false)
+				dst.f[i].v = cl.val(s)
+			}
+		default:
+			e.fail("generated Unmarshal: field of kind %T", s)
+		}
+	}
 }
